@@ -9,6 +9,7 @@ CONSTANTS
   MaxTime = 0
   Duration = 1
   Lease = 1
+  ImportOn = FALSE
   MaxRec = 0
   Bug = {"FiledUnderEmptyTag"}
 INVARIANTS ResumeOnlySameTriple
